@@ -20,7 +20,77 @@ type Val interface{}
 type nilV struct{} // nil pointer / slice / map / interface / func
 
 // Unknown is a scalar about which nothing is known; branching on it forks.
-type Unknown struct{ Why string }
+// Atom, when set, names the condition canonically; the branch taken is then
+// recorded in State.Path.
+type Unknown struct {
+	Why  string
+	Atom string
+}
+
+// LinV is a symbolic integer: C + sum of coeff*symbol.
+type LinV struct {
+	C int64
+	T map[string]int64
+}
+
+func linOf(v Val) (LinV, bool) {
+	switch x := v.(type) {
+	case LinV:
+		return x, true
+	case int64:
+		return LinV{C: x}, true
+	}
+	return LinV{}, false
+}
+
+func linSym(name string) LinV { return LinV{T: map[string]int64{name: 1}} }
+
+func (a LinV) add(b LinV, sign int64) LinV {
+	out := LinV{C: a.C + sign*b.C, T: map[string]int64{}}
+	for k, v := range a.T {
+		out.T[k] = v
+	}
+	for k, v := range b.T {
+		out.T[k] += sign * v
+		if out.T[k] == 0 {
+			delete(out.T, k)
+		}
+	}
+	return out
+}
+
+func (a LinV) scale(c int64) LinV {
+	out := LinV{C: a.C * c, T: map[string]int64{}}
+	if c == 0 {
+		return out
+	}
+	for k, v := range a.T {
+		out.T[k] = v * c
+	}
+	return out
+}
+
+func (a LinV) isConst() bool { return len(a.T) == 0 }
+
+func (a LinV) String() string {
+	var ks []string
+	for k := range a.T {
+		ks = append(ks, k)
+	}
+	sort.Strings(ks)
+	var parts []string
+	for _, k := range ks {
+		if a.T[k] == 1 {
+			parts = append(parts, k)
+		} else {
+			parts = append(parts, fmt.Sprintf("%d*%s", a.T[k], k))
+		}
+	}
+	if a.C != 0 || len(parts) == 0 {
+		parts = append(parts, fmt.Sprint(a.C))
+	}
+	return strings.Join(parts, " + ")
+}
 
 // SymV is one input symbol: an index into the machine's alphabet (a class of
 // bytes). Conversions byte->rune->int keep it; arithmetic needs a singleton class.
@@ -139,7 +209,7 @@ func zeroVal(t types.Type) Val {
 		case u.Kind() == types.UnsafePointer:
 			return nilV{}
 		}
-		return Unknown{"zero of " + t.String()}
+		return Unknown{Why: "zero of " + t.String()}
 	case *types.Struct:
 		s := &StructV{F: make([]Val, u.NumFields())}
 		for i := 0; i < u.NumFields(); i++ {
@@ -182,6 +252,8 @@ func fmtVal(v Val, ptrName func(int) string) string {
 		return "?"
 	case OpaqueV:
 		return "opaque(" + x.Name + ")"
+	case LinV:
+		return "lin(" + x.String() + ")"
 	case PosInt:
 		return "int>=1"
 	case SymV:
